@@ -99,6 +99,16 @@ def history_package(rng, gated: set) -> dict:
         "def helper_fn(a: Literal['h'] | None = None, *args: tuple[int, str]) -> Literal['r'] | None: ...\n\n\n"
         "def uses_alias(x: SubOne, y: SubTwo) -> SubThree: ...\n"
     )
+    # abstract classes (alone, next to another superclass, nested in a private base that several public classes inherit)
+    files["src/pk/abstract_mod.py"] = (
+        "from abc import ABC, abstractmethod\nimport abc\n\n\n"
+        "class Named:\n    def name(self) -> str: ...\n\n\n"
+        "class Shape(ABC):\n    def __init__(self, sides: int) -> None:\n        self.sides = sides\n\n    @abstractmethod\n    def area(self) -> float: ...\n\n\n"
+        "class Solid(Named, ABC):\n    def __init__(self, faces: int = 6) -> None:\n        self.faces = faces\n\n\n"
+        "class Meta(metaclass=abc.ABCMeta):\n    @abc.abstractmethod\n    def run(self) -> None: ...\n\n\n"
+        "class _Registry:\n    class Entry(ABC):\n        def __init__(self, key: str) -> None:\n            self.key = key\n\n    def inherited_lookup(self, key: str) -> 'Entry': ...\n\n\n"
+        "class DiskRegistry(_Registry):\n    pass\n\n\nclass MemoryRegistry(_Registry):\n    pass\n\n\nclass Square(Shape):\n    def area(self) -> float: ...\n"
+    )
     files["src/pk/other_mod.py"] = (
         "from typing import Literal\nfrom pathlib import Path\nfrom fractions import Fraction\nfrom logging.handlers import SocketHandler, QueueHandler\nfrom wsgiref.handlers import SimpleHandler\nfrom pk.base_mod import SubOne, _PrivBase\n\n\n"
         "class Far(_PrivBase):\n    def far_own(self, f: Fraction, p: Path) -> None: ...\n\n    def same_last_segment(self, a: SocketHandler, b: SimpleHandler, c: QueueHandler) -> None: ...\n\n\n"
@@ -113,6 +123,10 @@ def gen(tier: str, seed: int):
     cfg = c10.make_cfg(gated)
     cfg.reexport_forms = tuple(f for f in cfg.reexport_forms if f.split("-")[0] in ("name", "alias"))
     packs = [("history", history_package(rng, gated))]
+    from . import c01
+
+    for i in range(2 if tier == "quick" else 24):  # every declaration form of C01's library
+        packs.append((f"kitchen{i}", c01.kitchen_sink(rng_for(seed, PID, "kitchen-sink", i), gated, 90 + i)))
     n = 8 if tier == "quick" else 500
     for i in range(n):
         pkg = pg.random_pkg(rng, cfg)
